@@ -122,7 +122,7 @@ func runC16(c *Ctx) {
 			if r.Chance(1, 3) {
 				pc = PodCase{Pod: catCache[r.Intn(len(catCache))].Pod.DeepCopy()}
 			}
-			rc := &reviewCase{uid: fmt.Sprintf("uid-%d-%d", cl, i), ns: pick(r, nsNames), pod: pc.Pod, op: admissionv1.Create, user: pick(r, []string{"u", "u", "u", "exuser"})}
+			rc := &reviewCase{uid: fmt.Sprintf("uid-%d-%d", cl, i) + oddUIDTail(i), ns: pick(r, nsNames), pod: pc.Pod, op: admissionv1.Create, user: pick(r, []string{"u", "u", "u", "exuser"})}
 			rc.pod.Namespace = rc.ns
 			if r.Chance(1, 4) {
 				rc.op = admissionv1.Update
